@@ -18,6 +18,8 @@ pub fn run_check(prop: &str, _args: &[String]) -> i32 {
         "C13" => crate::enumchk::c13(),
         "C15" => crate::enumchk::c15(),
         "C14" => crate::c14::c14(),
+        "C09" => crate::c09::c09(),
+        "C12" => growth_check(),
         _ => {
             eprintln!("unknown property {}", prop);
             2
@@ -1045,4 +1047,70 @@ pub fn discard_check() -> i32 {
         "scenarios": scen,
     });
     run.finish(cov, vec!["as C01".into()])
+}
+
+
+// =====================================================================
+// C12: metadata growth
+// =====================================================================
+pub fn growth_check() -> i32 {
+    let run = Run::new("C12", "model_checking");
+    let thorough = run.thorough();
+    qcow2_rs::verif::set_order_salt(0);
+    let w = |off: u64, len: u64, tag: u32| Op::Write { off, len: len as usize, tag };
+    let cs = 512u64;
+    let tb = 64 * cs;
+    // (image, alphabet, depth, seconds)
+    let rb_alpha = vec![w(100 * cs, cs, 1), w(101 * cs, cs, 2), w(110 * cs, 3 * cs, 3), w(120 * cs, cs, 4), w(2 * tb, cs, 5), Op::Discard { off: 0, len: 2 * cs }, Op::Flush, Op::Sync, Op::Reopen];
+    let rt_alpha = vec![w(8000 * cs, cs, 1), w(8001 * cs, cs, 2), w(8010 * cs, 3 * cs, 3), w(8100 * cs, cs, 4), w(139 * tb, cs, 5), Op::Discard { off: 0, len: 2 * cs }, Op::Flush, Op::Sync, Op::Reopen];
+    let l1_alpha = vec![w(tb, cs, 1), w(64 * tb, cs, 2), w(65 * tb + cs, 2 * cs, 3), w(130 * tb, cs, 4), w(191 * tb, cs, 5), Op::Read { off: 64 * tb, len: cs as usize }, Op::Flush, Op::Sync, Op::Reopen];
+    let plans: Vec<(ImageSet, Vec<Op>, usize, u64, bool)> = vec![
+        (crate::extra::rb_edge_image(), rb_alpha, if thorough { 5 } else { 3 }, if thorough { 300 } else { 10 }, true),
+        (crate::extra::rt_edge_image(), rt_alpha, if thorough { 4 } else { 3 }, if thorough { 600 } else { 15 }, false),
+        (crate::extra::short_l1_image(), l1_alpha, if thorough { 4 } else { 3 }, if thorough { 600 } else { 15 }, false),
+    ];
+    let mut viol: Vec<Violation> = vec![];
+    let mut scen = vec![];
+    let (mut states, mut trans, mut outcomes, mut crash_imgs) = (0u64, 0u64, 0u64, 0u64);
+    let mut samples = vec![];
+    let mut complete = true;
+    for (img, alpha, depth, secs, full) in plans {
+        let g = crate::extra::g9_wide(3);
+        for (oname, oracles) in [
+            ("content", Oracles { c01: true, c02: true, c03: true, c16: true, ..Default::default() }),
+            ("crash", Oracles { c01: true, c04: true, c05: true, ..Default::default() }),
+        ] {
+            let mut sc = SeqScenario::new(img.clone(), g.cfg_small(), g.cfg_alt(), "small", alpha.clone(), oracles);
+            sc.relabel = Some("C12".into());
+            sc.relabel_all = true;
+            sc.full_sweep = full;
+            if oname == "crash" && img.kind == "rb-edge" {
+                sc.crash_continue = 70; // more than one refcount block (64 clusters)
+            }
+            let lim = BfsLimits { depth: if oname == "crash" { depth.min(3) } else { depth }, max_states: 2_000_000, deadline: deadline_in(secs) };
+            let st = bfs(&sc, &lim, &mut viol);
+            states += st.states;
+            trans += st.transitions;
+            outcomes += st.distinct_outcomes;
+            crash_imgs += st.counters[3];
+            if st.capped || st.depth_completed < st.depth_target {
+                complete = false;
+            }
+            if let Some(s) = st.samples.get(2).or(st.samples.first()) {
+                samples.push(format!("{} [{}]: {}", img.name, oname, s));
+            }
+            let mut j = stats_json(&format!("{} {}", img.name, oname), &st);
+            j["distinct_crash_images_checked"] = json!(st.counters[3]);
+            scen.push(j);
+        }
+    }
+    run.add_all(viol);
+    let cov = json!({
+        "states": states, "transitions": trans, "traces_validated_against_impl": trans, "samples": samples,
+        "evaluations": trans, "distinct_nontrivial": outcomes, "distinct_crash_images_checked": crash_imgs,
+        "rule": "explicit-state BFS over write/discard/flush/sync/reopen histories from three images built one allocation short of (i) a new refcount block, (ii) the end of the one-cluster refcount table (relocation + header switch), (iii) the header's l1_size (L1 extension); oracles of C01 C02 C03 C16 on every transition and the crash-image oracles of C04 C05 on every fsync window of the growth sequences",
+        "exhaustive": complete,
+        "scenarios": scen,
+    });
+    run.finish(cov, vec!["the 8 MiB refcount-table and 32 MiB L1 format limits themselves are outside the bound (terabyte host files)".into(), "as C01 / C04".into()])
 }
